@@ -22,6 +22,7 @@ use isomdl::issuance::Mdoc;
 use p256::ecdsa::{signature::Signer, signature::Verifier, SigningKey};
 use rand::rngs::StdRng;
 use rand::Rng;
+use rand::SeedableRng;
 use serde_json::json;
 use std::collections::{BTreeMap, BTreeSet};
 
@@ -481,6 +482,28 @@ pub fn run(ctx: &mut Ctx) {
         let two = i % 5 == 4;
         let auth = rand_auth(&mut ctx.rng, &nss, false);
         one_issuance(ctx, &pki, "issue_valid", nss, auth, alg, decoys, remote, es384, two);
+    }
+    // ---- items whose embedded encoding has EXACTLY a length at which a CBOR head changes width (255/256, 65535/65536):
+    //      the digest input is #6.24(bstr) of those bytes in the shortest head ----
+    {
+        let probe = |n: usize| -> Option<usize> {
+            let mut rng = rand::rngs::StdRng::seed_from_u64(7);
+            let nsm: Namespaces = [("org.iso.18013.5.1".to_string(), [("portrait".to_string(), Value::Bytes(vec![7; n]))].into_iter().collect())].into_iter().collect();
+            let (m, _) = crate::sess::issue(&mut rng, &pki, "org.iso.18013.5.1.mDL", nsm, DigestAlgorithm::SHA256, false);
+            m.namespaces.iter().next().and_then(|(_, items)| items.iter().next().map(|it| it.inner_bytes.len()))
+        };
+        // overhead with a 3-byte byte-string head (n in 256..65536) and with a 2-byte head (n in 24..256)
+        if let (Some(l3), Some(l2)) = (probe(1000), probe(100)) {
+            let (c3, c2) = (l3 - 1000, l2 - 100);
+            for (j, target) in [255usize, 256, 257, 65534, 65535, 65536, 65537].into_iter().enumerate() {
+                let n = if target <= 300 { target.saturating_sub(c2) } else { target - c3 };
+                for rep in 0..2 {
+                    let nsm: Namespaces = [("org.iso.18013.5.1".to_string(), [("portrait".to_string(), Value::Bytes(vec![(j + rep) as u8; n]))].into_iter().collect())].into_iter().collect();
+                    ctx.count(&format!("boundary_item:target={target}"));
+                    one_issuance(ctx, &pki, "issue_boundary_item", nsm, None, algs[(j + rep) % 3], false, rep == 1, false, false);
+                }
+            }
+        }
     }
     // ---- refusal stream: empty maps, namespaces without elements, contradictory authorisations ----
     let n = ctx.budget(40, 800);
